@@ -1120,6 +1120,10 @@ impl super::DiskFS for Disk {
             error!("wildcards are not allowed here");
             return Err(Box::new(Error::Syntax));
         }
+        if finfo.read_only {
+            error!("cannot delete read-only file");
+            return Err(Box::new(Error::WriteProtect));
+        }
         // files and directories can be delete the same way, except for a directory we
         // need some additional checks first:
         if finfo.directory {
